@@ -2,7 +2,7 @@
 use super::common::*;
 use crate::ast::*;
 use crate::gen::*;
-use crate::log::K;
+use crate::log::{catch, Log, Probe, K};
 use crate::report::{Cfg, Report};
 use crate::value::*;
 use crate::world::*;
@@ -35,13 +35,19 @@ fn real_time(c: &Chain) -> bool {
   c.any_src(&|s| matches!(s, Src::IntervalAt(..) | Src::TimerAt(..))) || c.any_op(&|o| matches!(o, Op::DelayAt(_) | Op::DelaySubscriptionAt(_)))
 }
 
-/// what the final subscriber saw: (virtual time unless the pipe reads the real clock, notification)
+/// what the final subscriber saw: (virtual time unless the pipe reads the real clock, notification),
+/// interleaved with the runs of the pipeline's finalize callbacks (user code too: recorded as the
+/// pseudo-item -(callback id)), so that their number and their order relative to the deliveries
+/// and to each other are compared as well
 fn trace(run: &RunOut, with_time: bool) -> Vec<(u64, N)> {
   run
     .evs
     .iter()
-    .filter(|e| e.id == 1)
-    .filter_map(|e| if let K::N(n) = &e.k { Some((if with_time { e.vt } else { 0 }, n.clone())) } else { None })
+    .filter_map(|e| match &e.k {
+      K::N(n) if e.id == 1 => Some((if with_time { e.vt } else { 0 }, n.clone())),
+      K::Mark("finalize", _) => Some((if with_time { e.vt } else { 0 }, N::Next(V::I(-(e.id as i64))))),
+      _ => None,
+    })
     .collect()
 }
 
@@ -83,7 +89,76 @@ pub fn compare_unsub(pipe: &Pipe, late: bool, seed: u64, unsub_at: Option<usize>
   }
 }
 
+/// teardown of several live branches: three hot branches under flat_map / merge_all(2), each with
+/// a finalize callback, plus one on the outer stream; the stream is unsubscribed while all are
+/// alive. The order in which the callbacks run must be the same in both forms.
+fn branch_teardown_battery(rep: &mut Report) {
+  use rxrust::prelude::*;
+  use std::sync::{Arc, Mutex};
+  for limit in [usize::MAX, 2usize] {
+    rep.evaluations += 1;
+    rep.count("branch_teardown_orders_compared", 1);
+    let run = |threads: bool| -> Vec<String> {
+      let order: Arc<Mutex<Vec<String>>> = Default::default();
+      if threads {
+        let mut outer = SubjectThreads::<usize, E>::default();
+        let inners: Vec<SubjectThreads<V, E>> = (0..3).map(|_| Default::default()).collect();
+        let (i2, o2, o3) = (inners.clone(), order.clone(), order.clone());
+        let h = outer
+          .clone()
+          .finalize_threads(move || o3.lock().unwrap().push("outer".into()))
+          .map(move |k: usize| {
+            let o = o2.clone();
+            i2[k].clone().finalize_threads(move || o.lock().unwrap().push(format!("branch {}", k)))
+          })
+          .merge_all_threads(limit)
+          .actual_subscribe(Probe::new(1, &Log::new()));
+        for k in 0..3 {
+          outer.next(k);
+        }
+        inners[0].clone().next(V::I(1));
+        h.unsubscribe();
+      } else {
+        let mut outer = Subject::<'static, usize, E>::default();
+        let inners: Vec<Subject<'static, V, E>> = (0..3).map(|_| Default::default()).collect();
+        let (i2, o2, o3) = (inners.clone(), order.clone(), order.clone());
+        let h = outer
+          .clone()
+          .finalize(move || o3.lock().unwrap().push("outer".into()))
+          .map(move |k: usize| {
+            let o = o2.clone();
+            i2[k].clone().finalize(move || o.lock().unwrap().push(format!("branch {}", k)))
+          })
+          .merge_all(limit)
+          .actual_subscribe(Probe::new(1, &Log::new()));
+        for k in 0..3 {
+          outer.next(k);
+        }
+        inners[0].clone().next(V::I(1));
+        h.unsubscribe();
+      }
+      let v = order.lock().unwrap().clone();
+      v
+    };
+    let (l, t) = (catch(|| run(false)), catch(|| run(true)));
+    rep.events += 8;
+    match (l, t) {
+      (Ok(l), Ok(t)) => {
+        if l != t {
+          rep.violation("variants_differ", "merge_all+finalize[teardown of live branches]", &format!("teardown:{}", limit), json!({"limit": if limit == usize::MAX { json!("unbounded") } else { json!(limit) }, "local": l, "threads": t}));
+        } else {
+          rep.nontrivial.insert(hash64(&("teardown", limit)));
+        }
+      }
+      (l, t) => rep.violation("only_one_form_panics", "merge_all+finalize[teardown of live branches]", &format!("teardown:{}", limit), json!({"local": format!("{:?}", l), "threads": format!("{:?}", t)})),
+    }
+  }
+}
+
 pub fn run(cfg: &Cfg, rep: &mut Report) {
+  if cfg.shard == 0 && cfg.only_case.as_deref().map_or(true, |c| c.starts_with("teardown:")) {
+    branch_teardown_battery(rep);
+  }
   let total = cfg.n(250_000, 12_000_000);
   let mut gcfg = GenCfg::full(cfg.n(3, 5), cfg.n(8, 14));
   gcfg.sched_pct = 25;
